@@ -219,9 +219,21 @@ def replay(pid, path):
     for _ in range(5):
         rc, out = C.sh("%s -child -seed %s -family %s | %s" % (os.path.join(C.BIN, "sup"), seed, fam,
                                                            os.path.join(C.BIN, "sup_model")), timeout=120)
-        if "MISMATCH" in out or "PROPFAIL" in out:
+        # only disagreements this property owns count (the same rule as in run_property)
+        mine = []
+        for l in out.splitlines():
+            if l.startswith("PROPFAIL") and PROP_OF_MONITOR.get(l.split()[1]) == pid:
+                mine.append(l)
+            elif l.startswith("MISMATCH"):
+                owners, kind = owners_of(l)
+                mn = re.search(r" n=(\d+) ", l)
+                if kind == "RunReturn" and mn and out.count("RunCall") < int(mn.group(1)):
+                    owners = set(owners) | {"C03"}
+                if pid in owners:
+                    mine.append(l)
+        if mine:
             bad += 1
-            print(out)
+            print("\n".join(mine))
     if bad:
         print("VIOLATION property=%s replay=%s" % (pid, path))
         return 1
